@@ -22,10 +22,10 @@ def run_at(T, data, p):
 def judge(ctx, case, cfgd, cfg, cs, inp, rng, modeled):
     top = case["top"]
     T = cs.T
-    # EOF arrays extend to the end of input by definition; a dynamic union's members may scan past the end of its
-    # last member (which is what the library takes as the union's extent), so for both the bytes after the extent
-    # are kept unchanged and the upper bound on reads is not judged
-    has_eof = gen.has_eof(top) or gen.has_dynamic_union(top)
+    # EOF arrays extend to the end of input by definition: the bytes after the extent are kept unchanged and the
+    # upper bound on reads is not judged.  (A dynamic union used to be exempt as well: the library took the end of
+    # its *last* member for its extent -- defect 76; it extends to the end of the member that reaches furthest.)
+    has_eof = gen.has_eof(top)
     key0 = (case["text"], tuple(sorted(cfgd.items())), inp.hex())
 
     def viol(kind, sig, **kw):
@@ -149,6 +149,10 @@ def judge(ctx, case, cfgd, cfg, cs, inp, rng, modeled):
         "T(memoryview-slice)": lambda: T(memoryview(b"\x11\x22\x33" + body + b"\x44")[3:-1]),
         "T.reads(memoryview-slice)": lambda: T.reads(memoryview(bytearray(b"\x99" * 5 + body))[5:]),
         "T.read(memoryview-cast)": lambda: T.read(memoryview(b"\x77" * 2 + body)[2:].cast("B")),
+        # views that are not contiguous: every second byte of an interleaved buffer, a reversed buffer read backwards
+        "T(memoryview-strided)": lambda: T(memoryview(bytes(b for x in body for b in (x, 0xEE)))[::2]),
+        "T.reads(memoryview-reversed)": lambda: T.reads(memoryview(body[::-1])[::-1]),
+        "cs.read(name, memoryview-strided)": lambda: cs.read("T", memoryview(bytes(b for x in body for b in (0xEE, x)))[1::2]),
     }
     for name, fn in forms.items():
         ctx.evaluation(key0 + (name,))
@@ -314,6 +318,35 @@ def direct_types(ctx, rng, n):
                         finally:
                             if hasattr(s, "close"):
                                 s.close()
+                    # a forward-only source (a pipe, a socket: nothing but read()): whatever T(x) does with it -- most
+                    # types need nothing else -- T.read(x) and cs.read(name, x) do the same
+                    class _Pipe:
+                        def __init__(self, data):
+                            self._s = io.BytesIO(data)
+
+                        def read(self, n=-1):
+                            return self._s.read(n)
+
+                    def _try(fn):
+                        try:
+                            return ("ok", lib.nan_clean(lib.norm(fn(), node)))
+                        except Exception as e:  # noqa: BLE001
+                            return ("err", type(e).__name__)
+
+                    tail_ = raw + b"\x00" * 4
+                    outs = {"T(x)": _try(lambda: T(_Pipe(tail_))), "T.read(x)": _try(lambda: T.read(_Pipe(tail_)))}
+                    if name in cs.typedefs or name in ("uint32", "int24", "uint128", "double", "uleb128", "ileb128"):
+                        tn = {"enum": "E", "flag": "FL"}.get(name, name)
+                        outs["cs.read(name, x)"] = _try(lambda: cs.read(tn, _Pipe(tail_)))
+                    ctx.evaluation(("direct-pipe", name, endian, raw.hex()))
+                    ctx.cell("direct:forward-only-stream")
+                    if outs["T(x)"][0] == "ok":
+                        ctx.event("forward_only_stream_parses")
+                    if len({o[0] for o in outs.values()}) != 1 or (outs["T(x)"][0] == "ok" and
+                                                                    any(o[1] != want for o in outs.values())):
+                        ctx.violation("direct", "call-forms-differ-on-a-forward-only-stream",
+                                      {"type": name, "endian": endian, "raw": raw.hex(), "outcomes": repr(outs),
+                                       "want": repr(want)})
                     # buffers: bytes / bytearray / memoryview slice
                     for bname, buf in (("bytes", raw + b"zz"), ("bytearray", bytearray(raw + b"zz")),
                                        ("memoryview-slice", memoryview(blob)[p:])):
